@@ -4,7 +4,14 @@ package doapprove
 
 // Contracts for the deductive checker in /verif (comment-only file).
 
+//vc:func openHistoryLog
+//vc:  requires[C12] @historyOnlyUnderLock lockHeld
+//vc:func logHistory
+//vc:  requires[C12] @historyOnlyUnderLock lockHeld
+
 //vc:func Main
+//vc:  requires[C12] !lockHeld && !lockClosed
+//vc:  ensures[C12] @lockKeptUntilExit lockHeld ==> lockClosed
 //vc:  requires[C13] InvAll(statusFile, hasOK, tOK, pOK, hasCmp, tCmp, pCmp, chg, now)
 //vc:  assert[C09] at "status.SetApprove(" @failedRecordedIffStatusNonzero arg3 == (stat != 0)
 //vc:  assert[C09] at "status.SetCompare(" @diffRecordedIfStatusNonzero stat != 0 ==> arg3
